@@ -7,7 +7,7 @@ COQ_PROP = "Properties/C05.v"; COQ_DIRS = ["Common", "Timer"]
 COQ_MODULE = "Timer.Model"; RUN_FN = "run"
 THEOREMS = ["C05_Inv_wake_preserved", "C05_Inv_wake_every_history", "C05_snapshot_invariant", "C05_never_early", "C05_woken_exactly_at_deadline",
             "C05_never_late_never_lost", "C05_complete_run_wakes_at_deadline", "C05_futures_keep_invariant",
-            "C05_composite_event_is_driver_event", "C05_woken_through_last_poller",
+            "C05_composite_event_is_driver_event", "C05_woken_through_last_poller", "C05_woken_through_last_waker_of_same_task",
             "C05_composite_sleep_exact", "C05_composite_sleep_prefix", "C05_fragment_scripts_decode_ok",
             "C05_removal_by_id_needs_distinct_ids", "C05_composite_reset_drop_exact", "C05_composite_timeout_sleep_exact", "C05_composite_interval_exact", "C05_composite_keepalive_select_exact", "C05_composite_select_exact", "C05_composite_timeout_recv_exact", "C05_run_over_cqueue_eq_run_over_spec", "C05_composite_exact_cq",
             "C05_composite_sleep_exact_cq", "C05_woken_exactly_at_deadline_cq",
@@ -20,7 +20,9 @@ RULE = ("scripts = 1..6 tasks on 1..2 async modules, each task a list of sleep /
         "awaits it / timeout or select! around a channel receive that is satisfied by a message event (a task spawned by a message that "
         "sends at once), cancelling the module's earliest timer while its wake-up event is already scheduled / keep-alive timers created "
         "disarmed as far-future sleeps (Duration::MAX, at t = 0 and later), armed by reset to deadlines shared across tasks, re-armed or "
-        "dropped before them / log steps, tasks spawned at start-up or by a message at a scripted "
+        "dropped before them / a boxed registered sleep polled by ONE task under two different wakers (first the task's own, then "
+        "through a sub-executor that polls with its own waker and only when that waker was woken, and the other way round) / "
+        "log steps, tasks spawned at start-up or by a message at a scripted "
         "instant; durations drawn from a small tie-rich set (0,1,5,10,15,20 ns, ms-scale around the 5 ms missed-tick threshold, "
         "far future), structured so that cancelled/dropped/reset timers precede live ones, deadlines coincide across tasks, "
         "messages arrive at wake-up instants; non-trivial = distinct script hitting >= 2 targeted mechanisms")
@@ -30,6 +32,10 @@ TRUSTED = ["tasks are scripts over the timer API (no channels between tasks: tas
            "a task that wakes itself is polled again in the same event",
            "the composition of driver + futures + executor + event set (coq/Timer/Model.v) is validated by these differential runs, not proved"]
 ASSUMPTIONS = [
+    "waker identities: the composite model keeps ONE identity per task in its waker table (every waker a task polls with wakes "
+    "that task); the rule that the stored waker is the one of the LAST poll is stated and proved for arbitrary waker identities "
+    "(C05_woken_through_last_poller / C05_woken_through_last_waker_of_same_task), the variant keyed on the task id is refuted in "
+    "coq/Refuted/C05.v, and the implementation is exercised with two wakers of one task by script step 14",
     "executor order (only C05_composite_timeout_recv_exact depends on it, and only at a tie, which its hypothesis recv_ok "
     "excludes): tasks made runnable within one event are polled in wake order -- due timer entries in slot registration "
     "order, then newly spawned tasks, then receivers woken by sends; tokio's current_thread runtime + LocalSet does this "
@@ -59,8 +65,10 @@ CLAIM = dict(
          "aligned instant after now; a far-future Sleep (now + duration not representable, deadline SimTime::MAX) is registered like any "
          "other, never gets a wake-up and never elapses (Inv_wake speaks about deadlines below SimTime::MAX); removal by id takes out "
          "exactly the asking Sleep's entry provided the ids of a slot are distinct, and every Sleep a task step creates draws a fresh id "
-         "(C05_removal_by_id_needs_distinct_ids; the shared-id variant is refuted); a registered Sleep polled again by any task (it may have moved) is registered once and woken "
-         "through the task that polled it last. The pinned next() (front slot only) is refuted in Coq by the history register a@5, drop a, "
+         "(C05_removal_by_id_needs_distinct_ids; the shared-id variant is refuted); a registered Sleep polled again under any waker (by another task it has moved to, or by the same task through a "
+         "sub-executor that polls with its own waker) is registered once and woken through the WAKER that polled it last "
+         "(C05_woken_through_last_poller, C05_woken_through_last_waker_of_same_task; a rule keyed on the task id is refuted: "
+         "C05_reregister_by_task_id_refuted). The pinned next() (front slot only) is refuted in Coq by the history register a@5, drop a, "
          "register b@10, deactivate, the pinned never-refreshed waker by a hand-over script in which the receiving task never resumes. In the composite model (coq/Timer/Model.v: scripted tasks, FIFO executor, drivers, event set, waker table) every "
          "module event is proved to be one such driver event with a contract-respecting operation list, and for the fragment "
          "{sleep, sleep_until, log, Sleep::reset / drop of a registered sleep, timeout(d, sleep x), interval new / tick / drop with all three missed-tick behaviours, the biased keep-alive select! of step 13 (C05_composite_keepalive_select_exact), select! over two sleeps (C05_composite_select_exact), timeout(d, receive) with token messages from sender tasks (C05_composite_timeout_recv_exact; hypotheses: a task sends or receives, one receiver per module, no message arriving at the very instant a receive elapses -- there the executor's poll order decides)} (finite durations) "
@@ -161,6 +169,8 @@ def parse_steps(b):
             out.append(("selrecv", b[i + 1] % 2 == 1, b[i + 2], b[i + 3])); i += 4
         elif t == 13 and left >= 5:
             out.append(("keep", b[i + 1] % 2 == 1, b[i + 2], b[i + 3], b[i + 4], b[i + 5])); i += 6
+        elif t == 14 and left >= 2:
+            out.append(("wrap", b[i + 1] % 2 == 1, b[i + 2])); i += 3
         else:
             break
     return out
@@ -180,6 +190,7 @@ def enc_step(s):
     if k == "trecv": return [11, s[1], s[2]]
     if k == "selrecv": return [12, 1 if s[1] else 0, s[2], s[3]]
     if k == "keep": return [13, 1 if s[1] else 0, s[2], s[3], s[4], s[5]]
+    if k == "wrap": return [14, 1 if s[1] else 0, s[2]]
     return [8]
 
 
@@ -226,6 +237,7 @@ def pretty_step(s):
     if k == "reset": return "sleep(%s)%s.reset(now+%s).await" % (fmt(s[2]), ".polled" if s[1] else "", fmt(s[3]))
     if k == "drop": return "drop(polled sleep(%s))" % fmt(s[1])
     if k == "hand": return "ch%d.send(polled boxed sleep(%s))" % (s[1], fmt(s[2]))
+    if k == "wrap": return ("sub_executor(sleep(%s)).polled_once.await" if s[1] else "sub_executor(polled sleep(%s)).await") % fmt(s[2])
     if k == "recv": return "ch%d.recv().await.await" % s[1]
     if k == "trecv": return "timeout(%s, ch%d.recv())" % (fmt(s[1]), s[2])
     if k == "selrecv": return ("select_biased(ch%d.recv(), sleep(%s))" if s[1] else "select_biased(sleep(%s), ch%d.recv())") % (
@@ -277,6 +289,7 @@ def walk_task(t, sends, chans):
             recs.pop(); now = None; status = "blocked"; break
         fars = {"timeout": [s[1]] if k == "timeout" else [], "select": list(s[2:4]), "reset": list(s[2:4]), "drop": [s[1]] if k == "drop" else [],
                 "trecv": [s[1]] if k == "trecv" else [], "selrecv": [s[3]] if k == "selrecv" else [],
+                "wrap": [s[2]] if k == "wrap" else [],
                 "keep": [s[2], s[3], s[5]] if k == "keep" else []}.get(k, [])
         # every deadline under which a Sleep of this step may get registered (liberal: used to recognise foreign slots)
         dls = info.setdefault("dls", set())
@@ -355,6 +368,11 @@ def walk_task(t, sends, chans):
             now = max(now, dl); recs.append([(now,)])
         elif k == "sleep":
             timers.append((now, now + s[1], s[1] > 0, now + s[1])); now += s[1]; recs.append([(now,)])
+        elif k == "wrap":
+            # polled under two different wakers of the SAME task: woken through the one that polled it last, at its deadline
+            d = eff(s[2])
+            timers.append((now, now + d, d > 0, now + d)); now += d; recs.append([(now,)])
+            if d > 0: info["wraps"] = info.get("wraps", []) + [s[1]]
         elif k == "until":
             d = max(now, s[1]); timers.append((now, d, d > now, d)); now = d; recs.append([(now,)])
         elif k == "timeout":
@@ -601,6 +619,9 @@ def mechanisms(script, out):
             if s[0] == "reset" and s[1] and s[2] > 0 and s[3] > s[2]: m.add("reset_to_later")
             if s[0] == "reset" and s[1] and s[2] > 0 and s[3] == s[2]: m.add("reset_to_same_deadline")
             if s[0] == "drop" and s[1] > 0: m.add("drop_registered_sleep")
+            if s[0] == "wrap" and 0 < s[2] < FARK:
+                m.add("same_task_polls_registered_sleep_with_other_waker")
+                m.add("sub_executor_waker_first_then_task_waker" if s[1] else "task_waker_first_then_sub_executor_waker")
             if s[0] == "sleep" and s[1] == 0: m.add("due_at_creation")
             if s[0] == "until" and s[1] <= t["start"]: m.add("due_at_creation")
     for k, t in enumerate(tasks):
@@ -754,6 +775,14 @@ def gen_script(rng):
             i = rng.randrange(nt)
             tasks[i]["steps"].append(("recv", ch))
         ch += 1
+    # same task, other waker: a registered Sleep is polled first with the task's waker and then through a sub-executor
+    # that polls with its own waker (and only when that waker was woken), or the other way round; other timers of the
+    # module before / at / after its deadline
+    if rng.random() < 0.14:
+        for _ in range(rng.choice([1, 1, 2])):
+            i = rng.randrange(len(tasks))
+            d = rng.choice([5, 10, 10, 15, 20, 25, 3, 10 * MS, 0])
+            tasks[i]["steps"].insert(rng.randint(0, len(tasks[i]["steps"])), ("wrap", rng.random() < 0.4, d))
     # keep-alive timers: created disarmed (far-future: sleep(Duration::MAX), at t = 0 or later), armed by reset, several tasks arm
     # theirs to the SAME deadline, one of them is re-armed or dropped before it -- every removal by id must hit the right entry
     if rng.random() < 0.18:
@@ -836,6 +865,7 @@ def exhaustive():
     EX_SMALL (durations 5/10/15), up to the order of the two tasks; (2) every script of two tasks on one module, the first of
     <= 3 steps spawned at start-up, the second of 1..2 steps spawned by a message at t=5, over the 13-symbol alphabet EX_ALPHABET;
     (3) every hand-over script [<=1 step] send(sleep 5/10/15) [<=1 step] | [<=1 step] receive+await [<=1 step] over EX_SMALL;
+    (6) same task, other waker: [<=1 step] sub-executor step (either order, sleep 5/10) [<=1 step], alone and next to a one-step task;
     (5) keep-alive timers: two tasks, each [sleep 0|3] keepalive(d0 = MAX|50, armed to now+10|7, select against sleep(4|50), then
     re-arm(now+5|20) | drop) [sleep 5]: every pair;
     (4) every message-driven cancellation script [<=1 step] timeout(10, recv)|select{recv,sleep(10)} [<=1 step] with the sender
@@ -873,6 +903,15 @@ def exhaustive():
     for a in one:
         for b in one:
             yield encode(1, [{"mod": 0, "start": 0, "steps": a}, {"mod": 0, "start": 0, "steps": b}])
+    # (6) same task, other waker: [<=1 step] wrap(order, 5|10) [<=1 step], alone and next to a second task [<=1 step] over EX_SMALL
+    for pa in opt:
+        for wf in (False, True):
+            for d in (5, 10):
+                for sa in opt:
+                    yield encode(1, [{"mod": 0, "start": 0, "steps": list(pa) + [("wrap", wf, d)] + list(sa)}])
+                    for pb in opt[1:]:
+                        yield encode(1, [{"mod": 0, "start": 0, "steps": list(pa) + [("wrap", wf, d)] + list(sa)},
+                                         {"mod": 0, "start": 0, "steps": list(pb)}])
     # (4) message-driven cancellation: receiver = [<=1 step] timeout(10, recv) | select{recv, sleep(10)} [<=1 step],
     # sender spawned by a message at 2 / 5 / 12 = send(sleep 5|20) [<=1 step]; arrivals in the instant of the deadline excluded
     for pb in opt:
